@@ -28,6 +28,9 @@ def reference(s):
         return ("float", float("inf"))
     if s == "-Inf":
         return ("float", float("-inf"))
+    if re.fullmatch(r"-?(NaN|Inf)[_,]+", s):
+        # "trailing separators" + "NaN/Inf literals": the docs do not say whether the two rules combine
+        return ("unjudged",)
     if re.fullmatch(r"[+-]?(nan|inf|infinity)", s, re.I) or re.search(r"(nan|inf)", s, re.I):
         # other spellings/capitalisations: "case-sensitive"; signs other than -Inf are not documented
         if s in ("+Inf", "+NaN", "-NaN") or re.search(r"[0-9]", s):
